@@ -29,7 +29,11 @@ def main(argv):
         mon = importlib.import_module(f'vp.monitors.{prop}')
         anchors = probe.Anchors(ctx)
         if hasattr(mon, 'anchors'):
-            for label, fn in mon.anchors(lentil):
+            try:
+                lst = mon.anchors(lentil)
+            except AttributeError:
+                lst = mon.anchors(probe.Lenient(lentil))     # a helper named by the monitor does not exist in this tree
+            for label, fn in lst:
                 anchors.add(label, fn)
         if hasattr(mon, 'install'):
             mon.install(ctx, lentil)
